@@ -185,6 +185,9 @@ def model_check(module: str, cfg_path: str, workdir: str, workers: int = 16, tim
         m = re.match(r"^Error: Temporal properties were violated", ln)
         if m:
             res["violated"].append("TEMPORAL")
+        m = re.match(r"^Error: Action property (\S+) is violated", ln)
+        if m:
+            res["violated"].append(m.group(1))
         if ln.startswith("<<") or ln.startswith('"'):
             res["lines"].append(ln)
     if "Model checking completed. No error has been found." in out:
